@@ -6,6 +6,8 @@ C03.S  scratch register excluded from every register named anywhere in the
        program (all register-bearing operand kinds traversed) and from the
        temporaries of the same command
 C03.M  mnemonic -> class lookup; one output instruction per input command
+C03.P  macro expansion executed: every `$name` expands to the definition of exactly that name, for every definition order
+       (names that are prefixes of one another included)
 """
 from __future__ import annotations
 
@@ -27,13 +29,14 @@ EXPLANATION = (
     "temporaries of the same command; the final pass maps each command to exactly one instruction through the flavour's mnemonic table."
     ' Operand-producing functions must return fresh objects (no memoisation, no module-level table), because _replace_constants rewrites operands in place. C03.Z: no truthiness test on an int-typed value in the assembler (a label at instruction 0 is a value).'
     ' get_current_registers is executed abstractly (checker-side AST interpreter) with one register at the top level and in each register-bearing attribute of each operand class.'
+    ' C03.P: _apply_macros is executed for every definition order of four macros, three of whose names are prefixes of one another, and must give the token-wise expansion each time.'
 )
 LEVEL_TEXT = (
     "Static analysis, partial: decides the structural clauses the assembler's correctness rests on for every instruction class and "
     "every operand kind (pass order, literal-exception table, scratch-register exclusion, one-to-one final pass). Not decided: label "
-    "arithmetic and insertion indices (value-level list manipulation), macro string substitution."
+    "arithmetic and insertion indices (value-level list manipulation), macro values that themselves contain macro references."
 )
-LEVEL_NOTE = "not decided: value-level index arithmetic in _assign_branch_labels/_replace_constants, macro substitution; trusts the AST constant evaluator for the module-level table"
+LEVEL_NOTE = "not decided: value-level index arithmetic in _assign_branch_labels/_replace_constants, macros defined in terms of other macros; trusts the AST constant evaluator for the module-level table"
 ASSUMPTIONS = [LEVEL_NOTE]
 TEXT_MOD = "netqasm.lang.parsing.text"
 IR_MOD = "netqasm.lang.ir"
@@ -433,6 +436,78 @@ def check_lookup(ctx):
     ctx.check("C03.M", "_make_args_operands:args-then-operands", ok, "_make_args_operands does not set operands = args + operands", repo.loc(m, mao) if mao else "")
 
 
+def check_macros(ctx, rule="C03.P"):
+    """_apply_macros executed by the checker's interpreter: every `$name` in the body stands for the macro of exactly that name.
+
+    The macro table is a list in definition order; names may be prefixes of one another (`c`, `cnt`, `cnt2`).  The reference
+    expansion is token-wise (longest name that matches at the `$`), the function is run for every definition order of the
+    four macros and must give the reference each time - the assembled program cannot depend on the order of independent
+    definitions.  The empty body and the empty table are part of the domain.
+    """
+    import itertools
+    from .. import circuit as C
+    repo = ctx.repo
+    m = repo.module(TEXT_MOD)
+    fn = m.functions.get("_apply_macros")
+    if fn is None:
+        raise AnalysisError("_apply_macros not found")
+    ctx.fn("text._apply_macros")
+    sym = repo.get_class("netqasm.lang.symbols", "Symbols")
+    consts = {}
+    for st in sym.node.body:
+        if isinstance(st, ast.Assign) and len(st.targets) == 1 and isinstance(st.targets[0], ast.Name) and isinstance(st.value, ast.Constant):
+            consts[st.targets[0].id] = st.value.value
+    start, br = consts.get("MACRO_START"), consts.get("PREAMBLE_DEFINE_BRACKETS")
+    if not isinstance(start, str) or not isinstance(br, str) or len(br) != 2:
+        raise AnalysisError("Symbols.MACRO_START / PREAMBLE_DEFINE_BRACKETS are not string constants")
+    table = {"c": "R0", "cnt": "R1", "cnt2": f"{br[0]}R2{br[1]}", "q": "Q0"}
+    body = [f"set {start}cnt 5", f"set {start}cnt2 7", f"add {start}cnt2 {start}cnt2 {start}cnt", f"qalloc {start}q", f"set {start}c 1", "", f"ret_reg {start}cnt2"]
+
+    def reference(lines, names):
+        out = []
+        for ln in lines:
+            i, acc = 0, ""
+            while i < len(ln):
+                if ln.startswith(start, i):
+                    hit = max((n for n in names if ln.startswith(n, i + len(start))), key=len, default=None)
+                    if hit is not None:
+                        acc += table[hit].strip(br)
+                        i += len(start) + len(hit)
+                        continue
+                acc += ln[i]
+                i += 1
+            out.append(acc)
+        return out
+
+    def run_(lines, macros):
+        try:
+            return C.Interp(repo, ctx.ev, C.Scenario(), None).call_function(m, fn, [list(lines), [list(x) for x in macros]], {})
+        except C.EvalRaise as ex_:
+            return f"raises {ex_}"
+
+    n = 0
+    bad = None
+    for k in (0, 1, 2, 3, 4):
+        for names in itertools.permutations(sorted(table), k):
+            if k and k < 4 and names != tuple(sorted(names)) and names != tuple(sorted(names, reverse=True)):
+                continue  # partial tables: ascending and descending order only
+            want = reference(body, names)
+            got = run_(body, [(nm, table[nm]) for nm in names])
+            n += 1
+            if got != want and bad is None:
+                diff = next(((w, g) for w, g in zip(want, got) if w != g), (want, got)) if isinstance(got, list) and len(got) == len(want) else (want, got)
+                bad = (names, diff)
+    ctx.check(rule, "_apply_macros:each-name-expands-to-its-own-definition:any-definition-order", bad is None,
+              f"with the macros defined in the order {list(bad[0]) if bad else ''} the body line that should expand to {bad[1][0]!r} becomes {bad[1][1]!r}: "
+              f"a `{start}name` is replaced by a definition of a different name (a name that is a prefix of another one is substituted inside it), "
+              f"so the assembled program is not the source program" if bad else "", repo.loc(m, fn), sample={"definition orders executed": n, "macro names": sorted(table)})
+    got = run_([], [("c", "R0")])
+    ctx.check(rule, "_apply_macros:empty-body", got == [], f"an empty body expands to {got!r}, not to no lines", repo.loc(m, fn), trivial=True)
+    # the caller hands over the body lines and the DEFINE entries of the preamble, and assembles what comes back
+    callers = [f for f in m.functions.values() if any(A.call_name(c) == "_apply_macros" for c in A.calls_in(f))]
+    ctx.anchor(rule, "callers of _apply_macros", len(callers), 1)
+
+
 def check_fresh_operands(ctx):
     """C03.S: _replace_constants rewrites operands in place, so every parsed operand must be an object of its own:
     nothing on the parsing path may be memoised or served from a module-level container."""
@@ -498,12 +573,16 @@ def run(ctx):
     check_scratch(ctx)
     check_fresh_operands(ctx)
     check_lookup(ctx)
+    check_macros(ctx, "C03.P")
     # 0 is an ordinary id / value / address: nothing int-valued may be tested by truthiness (nqsa/truth.py)
     from .. import truth
     truth.check(ctx, "C03.Z", ['netqasm.lang.parsing.text'])
     # a value remembered for later calls is keyed by every argument it depends on (nqsa/memo.py)
     from .. import memo
     memo.check(ctx, "C03.K", ['netqasm.lang.parsing.text'])
+    # no type test that an earlier type test has already decided (a subclass tested after its base class: nqsa/shadow.py)
+    from .. import shadow
+    shadow.check(ctx, "C03.H", ['netqasm.lang.parsing.text'])
 
 
 T = "netqasm/lang/parsing/text.py"
